@@ -430,9 +430,31 @@ def run_level2(c):
             if s not in exp_at and len(v) < 12:
                 v.append(dict(kind="unexpected-command-on-the-pads", slot=s - lat, decoded=got, was_sent=(s - lat) in sent_slots,
                               overlaps_emitted=[t for t in emitted if 0 < (s - lat) - t < 4]))
+    # what the truncated-window recomputation of the extended check (see the open finding) would emit, for the classifier only
+    diff_slots = set()
+    if c["extended"]:
+        by_cycle = {}
+        for (slot, *_r) in sent:
+            by_cycle.setdefault(slot // NPH, set()).add(slot % NPH)
+        em_rtl = set()
+        prevv = [0] * NPH
+        for k in range(ncyc + 6):
+            cur = [1 if ph in by_cycle.get(k, ()) else 0 for ph in range(NPH)]
+            rr = prevv + cur
+            hist = [0] * (2 * NPH)
+            for i in range(2 * NPH):
+                hist[i] = 1 if (rr[i] and not any(hist[max(0, i - 3):i])) else 0
+            for ph in range(NPH):
+                if cur[ph] and not any(hist[NPH + ph - 3:NPH + ph]):
+                    em_rtl.add(k * NPH + ph)
+            prevv = cur
+        diff_slots = em_rtl ^ set(emitted)
     for x in v:
         sl = x.get("slot")
         x["extended_check"] = c["extended"]
+        if sl is not None:
+            s0 = sl - lat if (x.get("kind") == "cs-high-on-two-consecutive-slots" and lat is not None) else sl
+            x["within_3_slots_of_a_truncated_window_decision"] = any(abs(s0 - d) <= 3 for d in diff_slots)
         if sl is not None and x.get("kind") == "cs-high-on-two-consecutive-slots" and lat is not None:
             sl -= lat            # this witness is in pad time
         if sl is not None:
